@@ -259,6 +259,13 @@ func zvMergeLike(meld bool, id string) {
 	n1 := vrt.Choice(m + 1)
 	n2 := vrt.Choice(m + 1)
 	a1, a2 := zvInts(n1), zvInts(n2)
+	// the receiver's array may have spare capacity (grown by Push, shrunk by Pop/Clear): a result
+	// built by appending to it would share its storage
+	if sp := 2 * vrt.Choice(2); sp > 0 {
+		b := make([]int, n1, n1+sp)
+		copy(b, a1)
+		a1 = b
+	}
 	comp := zvComp(kind)
 	if kind == 2 {
 		vrt.AssumeSWO(append(append([]int(nil), a1...), a2...)...)
@@ -283,9 +290,16 @@ func zvMergeLike(meld bool, id string) {
 		vrt.Assert(vrt.And(h1.Size() == 0, h2.Size() == 0, h1.IsEmpty(), h2.IsEmpty()), id+"/inputs-emptied")
 	} else {
 		vrt.Assert(vrt.And(vrt.SeqEqInt(h1.data, p1), vrt.SeqEqInt(h2.data, p2)), id+"/inputs-intact")
-		// the result does not share storage with the inputs: pushing to it leaves them intact
+		// the result does not share storage with the inputs: changing it leaves them intact
 		res.Push(vrt.Int())
 		vrt.Assert(vrt.And(vrt.SeqEqInt(h1.data, p1), vrt.SeqEqInt(h2.data, p2)), id+"/inputs-intact-after-push")
+		res.Pop()
+		vrt.Assert(vrt.And(vrt.SeqEqInt(h1.data, p1), vrt.SeqEqInt(h2.data, p2)), id+"/inputs-intact-after-pop")
+		// ... and later changes of an input leave the result intact
+		snap := append([]int(nil), res.data...)
+		h1.Push(vrt.Int())
+		h1.Pop()
+		vrt.Assert(vrt.SeqEqInt(res.data, snap), id+"/result-intact-after-input-changes")
 	}
 }
 
